@@ -43,7 +43,35 @@ def segment_literals():
         chain.append((ast.unparse(node.test), "; ".join(ast.unparse(s) for s in node.body)))
         node = node.orelse[0] if len(node.orelse) == 1 else None
     fs = _fn(t, "full_snippet", "Snippet")
-    return [res[k] for k in want], chain, [ast.unparse(s) for s in fs.body if not isinstance(s, ast.Expr)]
+    # what follows the loop, up to the call that stores the segments
+    k = fn.body.index(loop[0])
+    post = []
+    for st in fn.body[k + 1:]:
+        if isinstance(st, ast.Expr) and "segments.extend" in ast.unparse(st):
+            break
+        post.append(re.sub(r"\s+", " ", ast.unparse(st)))
+    else:
+        raise ValueError("_parse_snippet_segments no longer ends with metadata.segments.extend(...)")
+    return [res[k] for k in want], chain, [ast.unparse(s) for s in fs.body if not isinstance(s, ast.Expr)], post
+
+
+def request_object_literals():
+    """The two places of generate_request_object the model depends on beyond its plain structure."""
+    fn = _fn(_parse("gapic/samplegen/samplegen.py"), "generate_request_object")
+    req = [n for n in ast.walk(fn) if isinstance(n, ast.Assign) and ast.unparse(n.targets[0]) == "required_fields"]
+    if len(req) != 1:
+        raise ValueError("required_fields is no longer assigned once in generate_request_object")
+    loop = [n for n in fn.body if isinstance(n, ast.For) and ast.unparse(n.iter) == "request_fields"]
+    if len(loop) != 1 or not isinstance(loop[0].body[-1], ast.If):
+        raise ValueError("generate_request_object: the loop over request_fields changed shape")
+    tests, node = [], loop[0].body[-1]
+    while isinstance(node, ast.If):
+        tests.append(ast.unparse(node.test))
+        node = node.orelse[0] if len(node.orelse) == 1 and isinstance(node.orelse[0], ast.If) else None
+    rec = [c for c in ast.walk(loop[0]) if isinstance(c, ast.Call) and ast.unparse(c.func) == "generate_request_object"]
+    if len(rec) != 1:
+        raise ValueError("generate_request_object: expected one recursive call")
+    return re.sub(r"\s+", " ", ast.unparse(req[0].value)), tests, sorted(f"{k.arg}={ast.unparse(k.value)}" for k in rec[0].keywords)
 
 
 def samplegen_literals():
@@ -81,7 +109,8 @@ def _flat(lines):
 
 
 def gen_text():
-    regs, chain, fs = segment_literals()
+    regs, chain, fs, post = segment_literals()
+    rq, tests, rec = request_object_literals()
     tag, aug, so, sg, tr = samplegen_literals()
     members, md = calling_forms()
     q = coq.s
@@ -92,6 +121,10 @@ def gen_text():
         f"Definition SEGMENT_RES : list string := {coq.slist(regs)}.",
         "Definition SEGMENT_CHAIN : list (string * string) := " + coq.lst(f"({q(a)}, {q(b)})" for a, b in chain) + ".",
         f"Definition FULL_SNIPPET_SRC : list string := {coq.slist(fs)}.",
+        f"Definition SEGMENT_POST_SRC : list string := {coq.slist(post)}.",
+        f"Definition GRO_REQUIRED_SRC : string := {q(rq)}.",
+        f"Definition GRO_BRANCH_TESTS : list string := {coq.slist(tests)}.",
+        f"Definition GRO_RECURSIVE_KWARGS : list string := {coq.slist(rec)}.",
         f"Definition REGION_TAG_SRC : string := {q(tag)}.",
         f"Definition REGION_TAG_INTERNAL_SRC : string := {q(aug)}.",
         f"Definition SYNC_OR_ASYNC_SRC : list string := {coq.slist(_flat(so))}.",
